@@ -85,7 +85,9 @@ def gen(rng, depth, counter, allow_undeclared):
             kids.append(gen(rng, depth + 1, counter, allow_undeclared))
         else:
             kids.append(rng.choice(['t', ' ${x} ', 'u', '\n  ']))
-    nstag = rng.random() < .2 and not any(s[1] == 'attributes' and s[0] == 'tal' for s in stmts)
+    if any(s[1] == 'on-error' for s in stmts) and rng.random() < .6:
+        kids.append(' ${1/0} ')        # the body fails: the on-error fallback is what gets rendered
+    nstag = rng.random() < (.4 if any(s[1] == 'on-error' for s in stmts) else .2) and not any(s[1] == 'attributes' and s[0] == 'tal' for s in stmts)
     if nstag:
         foreign = []
     return El(eid, rng.choice(['p', 'div', 'b', 'span']), stmts, foreign, kids, nstag)
@@ -225,6 +227,11 @@ def check_foreign(ctx, root, out, src):
             m = re.search(r'<[\w:-]+ id="%s"[^>]*>' % n.eid, src)
             written = [(k, v) for k, q, v in reader.start_tags(m.group())[0][1]] if m else []
             want_in_order = [kv for kv in written if kv in want]
+            names = [s_[1] for s_ in n.stmts]
+            if 'on-error' in names and 'attributes' in [s_[1] for s_ in n.stmts if s_[0] == 'i18n']:
+                # the fallback start tag carries the static attributes only; a translated attribute is not one (C13)
+                got = [kv for kv in got if kv[0] != 'title']
+                want_in_order = [kv for kv in want_in_order if kv[0] != 'title']
             if got != want_in_order:
                 return 'element %s: foreign attributes rendered %r, written %r' % (n.eid, got, want_in_order)
     return None
